@@ -140,6 +140,29 @@ def handle (cmd : String) (args : List String) : Option String :=
         let (cols, left) ← parseCols k.toNat r'
         if left.isEmpty ∧ k ≥ 0 then pure (optInt (itemDelta cols coords)) else none
       | [] => none
+    -- `dsim.get entryFormat mapCount index nBytes b0 b1 …`
+    | "dsim.get", ef :: mc :: ix :: n :: bytes =>
+      if bytes.length = n.toNat ∧ n ≥ 0 then
+        some (match dsimGet ef mc ix bytes with
+          | none => "trap"
+          | some none => "err"
+          | some (some (o, i)) => s!"{o} {i}")
+      else none
+    -- `delta.prog ppem hasSdb sdb hasSds sds variant arg`
+    | "delta.prog", [ppem, hb, sdb, hs, sds, variant, arg] =>
+      if (hb = 0 ∨ hb = 1) ∧ (hs = 0 ∨ hs = 1) ∧ (variant = 0 ∨ variant = 16 ∨ variant = 32) then
+        some (match deltaProgram ppem (if hb = 1 then some sdb else none) (if hs = 1 then some sds else none) variant arg with
+          | none => "trap"
+          | some none => "err"
+          | some (some none) => "none"
+          | some (some (some v)) => toString v)
+      else none
+    -- `ift.f2ids d1 d2 …` (99999999 = entry without an id delta)
+    | "ift.f2ids", ds =>
+      some (match f2EntryIds (ds.map fun d => if d = 99999999 then none else some d) with
+        | none => "trap"
+        | some (_, true) => "err"
+        | some (ids, false) => joinInts ids)
     | _, _ => none
 
 end FontVerif.Drv.C20
